@@ -218,6 +218,28 @@ func (a *Act) callWithArgs(ctx *blockCtx, c *ssa.CallCommon, args []Val, fnv Val
 		v, tup := a.resultVals(resT, "dflt_"+shortName(key))
 		return v, tup
 	}
+	// slices are values in this model: a callee outside /repo without a contract that is handed a
+	// slice could write through it unseen. Only callees known to read their slice arguments are accepted.
+	if !(callee.Pkg != nil && strings.HasPrefix(callee.Pkg.Pkg.Path(), "github.com/FollowTheProcess/spok")) {
+		for _, av := range c.Args {
+			t := av.Type()
+			if mi, ok := av.(*ssa.MakeInterface); ok {
+				t = mi.X.Type()
+			}
+			if _, isSlice := t.Underlying().(*types.Slice); !isSlice {
+				continue
+			}
+			if _, isTmp := av.(*ssa.Slice); isTmp {
+				continue // a varargs temporary built at the call site
+			}
+			if _, isConst := av.(*ssa.Const); isConst {
+				continue // a nil slice
+			}
+			if !readsSlicesOnly(key) {
+				g.problem("%s: the slice %s is handed to %s, a function outside /repo without a contract that might write through it (slices are values in this model) at %s", a.key, av.Name(), key, g.pos(pos))
+			}
+		}
+	}
 	g.usedDefault[key] = true
 	if debugKeys {
 		fmt.Fprintf(os.Stderr, "default-frame: %q\n", key)
@@ -1298,4 +1320,16 @@ func rootIsLocalAlloc(v ssa.Value) bool {
 			return false
 		}
 	}
+}
+
+// readsSlicesOnly: callees outside /repo, without contract, that are known not to write through
+// slice arguments (recorded as an assumption wherever they are used, like every default contract).
+func readsSlicesOnly(key string) bool {
+	for _, p := range []string{"fmt.", "strings.", "bytes.", "path/filepath.", "errors.", "encoding/json.", "io.MultiWriter", "mvdan.cc/sh/v3/expand.ListEnviron",
+		"github.com/bmatcuk/doublestar/v4.GlobWalk", "github.com/FollowTheProcess/msg.", "golang.org/x/exp/maps.Keys", "maps.Keys", "github.com/lithammer/fuzzysearch/fuzzy.", "os.", "strconv."} {
+		if strings.HasPrefix(key, p) {
+			return true
+		}
+	}
+	return false
 }
